@@ -16,8 +16,8 @@ CLAIMS = {
          "Partial by nature: files on disk and Python's re are external. The DOT reader understands exactly the shapes tealer emits.", "8/C18"),
  'C20': ("Lean model of _is_match / _find_instructions (Regex.lean) with the theorem that every reported match starts at an instruction reachable from the label at which the pattern occurs consecutively in straight-line code, lists those instructions in order, and every covered instruction is reachable (C20_sound, by induction on the search with an invariant over visited / matches / covered); + correspondence of matches and covered with the real match_regex; + independent reachability-closure oracle for completeness of the match set and soundness of covered",
          "Completeness of `covered` is false on the unchanged tree (known finding F23); completeness of the match set is decided by the oracle, not yet a theorem.", "8/C20"),
- 'C13': ("Lean theorems: the offset table built by fill_group_relative_indexes is exactly the inverse of the configured offsets; the verdict logic stated outright (a transaction is cleared iff its own logic-sig / application, or another member through the configured absolute index or offset, excludes the value at every accepting exit); leaf criterion; + on every run, through the YAML reader and init_tealer_from_config: one-transaction configurations (group verdict = single-contract verdict per applicable detector) and two-transaction configurations x who checks the field x absolute / relative configuration, with the concrete group executed by the Lean AVM semantics (both contracts must approve)",
-         "The group verdict is not yet run through the Lean model (contexts of several functions); the decision-logic theorems are about a model of the loop, tied by the oracle comparisons only. Known finding F24.", "8/C13"),
+ 'C13': ("Lean theorems: the offset table built by fill_group_relative_indexes is exactly the inverse of the configured offsets; the verdict loop as a model (Group.groupVerdict) with the decision logic stated outright (C13_group_verdict_iff: reported = eligible and not cleared; C13_cleared_spec: cleared iff an own contract, or a member through the configured absolute index, or a member through its configured offset, excludes the value at every accepting exit); leaf criterion; + on every run: correspondence of the real verdict loop with the model on random configured groups (1-4 members, shuffled listing order, absolute indices, offsets, declared-but-absent logic-sigs, type filters) under scripted answers of the three contract-level questions; through the YAML reader and init_tealer_from_config: one-transaction configurations (group verdict = single-contract verdict per applicable detector) and two-transaction configurations x who checks the field x absolute / relative configuration, with the concrete group executed by the Lean AVM semantics (both contracts must approve)",
+         "The three contract-level questions (contract_checks_its_field / _txn_at_absolute_index / _using_relative_index) are parameters of the group model; their own model (validatedInBlock over leaf contexts) is compared in the ctx / paths phases of C01-C10. Detector types other than STATELESS / STATEFULL are outside the model (no caller has one). Known finding F24.", "8/C13"),
  'C14': ("Lean theorems: the model is a pure function of the program; whatever the initial order of the worklist (any order a set iteration may give) the result solves the equations when the loop stops (worklist theorem), permuting the initial worklist keeps the precondition, detectors read the contexts as an immutable argument; + on every run: the same contract analysed fresh, after random histories in the same process, with detectors registered in shuffled orders and re-run on one Tealer object, and in fresh processes under several PYTHONHASHSEED values with byte-identical JSON",
          "Partial by nature: hash seeds, id()-ordered sets, lru_caches and module-level lists are Python runtime behaviour that the pure model cannot exhibit; uniqueness of the fixpoint (confluence) is not yet a theorem.", "8/C14"),
  'C15': ("Lean theorems on the model: int / pushint / intcblock+intc spellings push the same known value, named type and completion constants denote their numbers, stack-neutral padding leaves the symbolic stack unchanged, consistent label renaming resolves every jump to the same position; + metamorphic check on the real tool: random compositions of label renaming, integer spellings (decimal/hex/octal, names), int->pushint, comments / blank lines / indentation, padding, moving subroutine bodies leave per-block contexts (matched through instruction ids) and detector verdicts unchanged",
@@ -30,7 +30,7 @@ CLAIMS = {
          "Theorems specific to construct_function are in progress; the flow theorems apply to the function graph as to any graph. Known findings F15, F16.", "8/C12"),
  'C04': ("Lean theorems about the model of parse_teal's four passes + correspondence of block structure, ordered successor/predecessor lists, retained set with /repo + check that the block trace of every concrete execution of the Lean AVM semantics is a matched walk of the tool's graph",
          "CFG construction is hand-modelled (Cfg.lean) and tied by differential execution on corpus + generated layouts.", "8/C04"),
- 'C05': ("Lean model of subroutine discovery, caller/return-point tables and function construction (Cfg.lean, Function.lean) tied by correspondence of the subroutine tables at contract and function level; independent executable closure oracle (subroutines = callsub targets, blocks = intraprocedural closure, exits, call sites, return points) on the real tool's output",
+ 'C05': ("Lean model of subroutine discovery, caller/return-point tables and function construction (Cfg.lean, Function.lean) tied by correspondence of the subroutine tables at contract and function level; independent executable closure oracle (subroutines = callsub targets, blocks = intraprocedural closure, exits, call sites, return points) on the real tool's output; the exported call graph (`tealer print call-graph` as a subprocess, call-graph.dot parsed back) on call-heavy layouts under declared versions 4-8",
          "The C05 statements are checked on the tool's output by the executable predicate (harness/structural.py) and by model/tool agreement; Lean theorems for the closure characterisation are in progress (the partition and edge-order theorems of C04 are shared).", "8/C05"),
  'C11': ("Lean theorems: regenerated opcode table (class, printed form, pops, pushes, version, mode of every sample built by the real parse_line) equals the committed spec table (kernel decide); immediate families (dig/cover/uncover/bury/popn/dupn 0..255, frame ops, pushints/pushbytess/switch/match 0..8, proto) satisfy the AVM formulas; one-step simulation of construct_stack_ast against an instrumented concrete stack; + correspondence of the per-instruction operand ASTs on straight-line sequences over the whole opcode table",
          "Spec table is a reviewed snapshot (no AVM spec file available offline); known deviations F13/F14 are explicit in the theorem.", "8/C11"),
